@@ -163,6 +163,9 @@ func runCase(r *ev.Run, idx int) {
 		}
 	}
 	n := 12 + rng.Intn(r.Pick(20, 40))
+	if idx%8 == 5 {
+		n = 150 + rng.Intn(150) // a long unsynced burst: damage far from the tail is still damage
+	}
 	for i := 0; i < n; i++ {
 		if !apply(g.Next()) {
 			return
@@ -549,7 +552,7 @@ func openImage(cfg aof.Config) (d *aof.DiskKV, err error, pan string) {
 
 func main() {
 	r := ev.Start("C22", "fault_enumeration")
-	r.SetRule("a history = 12-32 (52 thorough) PRNG mutations on the real AOF store (every 6th behind >= 2 MB of large values so the log has several segments, every 4th with a clean restart in the middle), stopped cleanly; fault images of the last segment file: truncation to every offset; the tail zeroed from every offset; every byte of the last entry xor {0x01,0x80,0xff,random}; seeded: 288 contiguous byte ranges inside ONE entry (last, or an earlier one with the later entries intact) replaced by PRNG garbage or zeros, 96 single-byte xors of earlier entries; crafted: 3 entries whose payload+checksum are masked as an unknown field, every entry whose length prefix is enlarged to swallow its successor, 3 entries that carry their data and checksum fields twice (the second pair taken from another entry); and up to 2 'rejected append left at the tail' images (an earlier PrefixAppend whose child still exists repeated at the end), opened, given empty-valued puts and a clean stop, and opened again. A case = one image reopened with aof.New; distinct+non-trivial by (fault kind, where it hits: entry boundary / length prefix / header / payload / checksum, last or earlier entry, single/multi segment, outcome: error / final / intermediate / empty state). 32 garbage tails per history are reopened too but only counted (outside the judged fault model)")
+	r.SetRule("a history = 12-32 (52 thorough; every 8th: 150-300) PRNG mutations on the real AOF store (every 6th behind >= 2 MB of large values so the log has several segments, every 4th with a clean restart in the middle), stopped cleanly; fault images of the last segment file: truncation to every offset; the tail zeroed from every offset; every byte of the last entry xor {0x01,0x80,0xff,random}; seeded: 288 contiguous byte ranges inside ONE entry (last, or an earlier one with the later entries intact) replaced by PRNG garbage or zeros, 96 single-byte xors of earlier entries; crafted: 3 entries whose payload+checksum are masked as an unknown field, every entry whose length prefix is enlarged to swallow its successor, 3 entries that carry their data and checksum fields twice (the second pair taken from another entry); and up to 2 'rejected append left at the tail' images (an earlier PrefixAppend whose child still exists repeated at the end), opened, given empty-valued puts and a clean stop, and opened again. A case = one image reopened with aof.New; distinct+non-trivial by (fault kind, where it hits: entry boundary / length prefix / header / payload / checksum, last or earlier entry, single/multi segment, outcome: error / final / intermediate / empty state). 32 garbage tails per history are reopened too but only counted (outside the judged fault model)")
 	r.Assume("histories are sampled; per history the truncation offsets and last-entry byte positions are enumerated completely, multi-byte and earlier-entry corruptions are seeded samples")
 	r.Assume("a fault is modelled as a change of the bytes of the last segment file only (older segments were synced when the segment was closed)")
 	r.Assume("the harness' parser of the tidwall/wal binary framing is used only to classify fault positions, never to decide")
